@@ -249,9 +249,8 @@ fn run13<W: SimWord + PartialEq, D: MemDev<W>>(s: &S13, dev: &mut D, m: &mut Mod
                     Ok(g) => g,
                     Err(p) => return ctx.fail("C13.panic", format!("flush panicked: {}", p)),
                 };
-                if let Some(Err(())) = got {
-                    return ctx.fail("C13.flush", format!("op #{} flush of a memory stream failed", i));
-                }
+                // (flush is exercised but not asserted: the property does not mention it)
+                let _ = got;
             }
             Op13::Pos => {
                 let got = match guard(|| dev.pos()) {
